@@ -236,11 +236,18 @@ package packets
 
 // ---- the packet store (retained messages, delayed wills): a map from key to packet ----
 // verif:func packets.Packets.Add
+//@ requires C32-lock-not-held-by-this-goroutine: p.RWMutex.lheld == 0
+//@ ensures C32-lock-released-on-return: p.RWMutex.lheld == 0
 //@ requires p.internal != nil
 //@ modifies entries(p.internal)
 //@ ensures stored: has(p.internal, id) && p.internal[id] == val
 //@ ensures others-untouched: forall k string :: k != id ==> (has(p.internal, k) <==> old(has(p.internal, k))) && p.internal[k] == old(p.internal[k])
 // verif:func packets.Packets.Delete
+//@ requires C32-lock-not-held-by-this-goroutine: p.RWMutex.lheld == 0
+//@ ensures C32-lock-released-on-return: p.RWMutex.lheld == 0
 //@ modifies entries(p.internal)
 //@ ensures removed: !has(p.internal, id)
 //@ ensures others-untouched: forall k string :: k != id ==> (has(p.internal, k) <==> old(has(p.internal, k))) && p.internal[k] == old(p.internal[k])
+// verif:func packets.Packets.GetAll
+//@ requires C32-lock-not-held-by-this-goroutine: p.RWMutex.lheld == 0
+//@ ensures C32-lock-released-on-return: p.RWMutex.lheld == 0
